@@ -580,6 +580,15 @@ func gen(g *common.Gen) {
 		g.Stat("exhaustive-graph")
 		count++
 	}
+	// closed-loop part: real Router.Start, the harness is only a lossy network (wire mode)
+	wireN := g.N / 8
+	if wireN < 6 {
+		wireN = 6
+	}
+	for i := 0; i < wireN; i++ {
+		h.wireHistory()
+		g.Stat("wire-history")
+	}
 	// random part
 	for ; count < g.N; count++ {
 		n := h.r.Range(2, 8)
@@ -588,6 +597,46 @@ func gen(g *common.Gen) {
 		}
 		h.history(randomConnected(h.r, n), h.r.Range(1, 3))
 		g.Stat("random-graph")
+	}
+}
+
+// wireHistory: n started routers on a random connected topology with short (but valid) intervals; stretches of a
+// lossy, duplicating, reordering network; link changes and restarts in between; `wquiet` = the network turns
+// reliable until nothing moves any more, then every table and every link is examined.
+func (h *hgen) wireHistory() {
+	g, r := h.g, h.r
+	n := r.Range(2, 6)
+	t := randomConnected(r, n)
+	adv := 1000 * r.Range(1, 2)
+	dead := adv * r.Range(2, 3)
+	g.Op("neww %d %d %d", n, adv, dead)
+	for _, e := range t.edges() {
+		g.Op("link %d %d", e.a, e.b)
+	}
+	run := func() {
+		g.Op("wrun %d %d %d %d %d", r.Range(200, 4000), r.U64()%1000000, r.Pick3(0, 10, 30), r.Pick3(0, 10, 25), r.Pick3(0, 20, 300))
+	}
+	for phase := r.Range(1, 3); phase > 0; phase-- {
+		for k := r.Range(1, 3); k > 0; k-- {
+			run()
+			switch r.Intn(5) {
+			case 0: // a link goes down (the topology may fall apart)
+				if es := t.edges(); len(es) > 0 {
+					e := es[r.Intn(len(es))]
+					t.adj[e.a][e.b], t.adj[e.b][e.a] = false, false
+					g.Op("unlink %d %d", e.a, e.b)
+				}
+			case 1: // a new link
+				a, b := r.Intn(n), r.Intn(n)
+				if a != b && !t.adj[a][b] {
+					t.adj[a][b], t.adj[b][a] = true, true
+					g.Op("link %d %d", a, b)
+				}
+			case 2:
+				g.Op("wrestart %d", r.Intn(n))
+			}
+		}
+		g.Op("wquiet %d", r.U64()%1000000)
 	}
 }
 
@@ -640,8 +689,85 @@ func valid(f []string, k int) ([]int, bool) {
 	return out, true
 }
 
+func upLink(u, w int) bool { return link[u][w] }
+
 func exec(op string) string {
 	f := common.Fields(op)
+	if sim != nil && sim.IsWire() {
+		switch f[0] {
+		case "new", "neww", "cfg", "link", "unlink", "check", "wrun", "wquiet", "wrestart":
+		default:
+			return "skip" // the routers of a wire history run by themselves
+		}
+	}
+	switch f[0] {
+	case "neww":
+		sim.Close()
+		sim = nil
+		if len(f) != 4 {
+			return "bad-op"
+		}
+		n := common.Atoi(f[1])
+		var err error
+		if sim, err = dvsim.NewSimWire(n, common.Atou(f[2]), common.Atou(f[3])); err != nil {
+			sim = nil
+			return "rejected"
+		}
+		link = make([][]bool, n)
+		for i := range link {
+			link[i] = make([]bool, n)
+		}
+		flights = map[[2]int][]flight{}
+		var sb strings.Builder
+		sb.WriteString("ok")
+		proc := "same"
+		for i, nd := range sim.Nodes {
+			fmt.Fprintf(&sb, " %d", nd.Hash)
+			if i < len(otherProc) && otherProc[i] != nd.Hash {
+				proc = "differs"
+			}
+		}
+		return sb.String() + " proc=" + proc
+	case "wrun":
+		// wrun <ms> <seed> <loss%> <dup%> <max delay ms>
+		if sim == nil || !sim.IsWire() || len(f) != 6 {
+			return "skip"
+		}
+		rr := common.NewRand(common.Atou(f[2]))
+		sim.WireRun(time.Duration(common.Atoi(f[1]))*time.Millisecond, 5*time.Millisecond, upLink,
+			dvsim.WireFaults{Loss: common.Atoi(f[3]), Dup: common.Atoi(f[4]), MaxDelay: time.Duration(common.Atoi(f[5])) * time.Millisecond, Rand: rr.Intn})
+		return "ok"
+	case "wrestart":
+		if sim == nil || !sim.IsWire() || len(f) != 2 {
+			return "skip"
+		}
+		x := common.Atoi(f[1])
+		if x < 0 || x >= len(sim.Nodes) {
+			return "skip"
+		}
+		sim.RestartWire(x)
+		return "ok"
+	case "wquiet":
+		if sim == nil || !sim.IsWire() || len(f) != 2 {
+			return "skip"
+		}
+		rr := common.NewRand(common.Atou(f[1]))
+		cfg := sim.Nodes[0].Cfg
+		q := sim.WireQuiet(2*cfg.RouterDeadInterval()+2*cfg.AdvertisementSyncInterval(), upLink, rr.Intn)
+		parts := make([]string, len(sim.Nodes))
+		for i := range sim.Nodes {
+			parts[i] = fmt.Sprintf("r%d %s", i, sim.DumpRib(i))
+		}
+		uns := strings.Join(sim.Unsynced(upLink), ",")
+		if uns == "" {
+			uns = "-"
+		}
+		qs := "1"
+		if !q {
+			qs = "0"
+		}
+		return strings.Join(parts, " ; ") + " | unsynced=" + uns + " q=" + qs
+	}
 	switch f[0] {
 	case "cfg":
 		// the REAL Config.Parse on the given advertise / dead intervals (milliseconds)
@@ -834,7 +960,7 @@ func exec(op string) string {
 		lastAdv[x], lastSeq[x] = advText(x), sim.Nodes[x].R.VerifAdvertSeq()
 		return sim.DumpRib(x) + " ann=ok"
 	case "tick", "check":
-		if sim == nil {
+		if sim == nil || (sim.IsWire() && f[0] == "tick") {
 			return "skip"
 		}
 		if f[0] == "tick" {
